@@ -84,7 +84,7 @@ int disk_last_open_flags(const std::string &path);    // flags of most recent op
 int disk_write_opens(const std::string &path);        // number of opens with O_RDWR/O_WRONLY/O_CREAT/O_TRUNC
 void disk_forget(const std::string &path);
 // fault injection: fail the n-th (0-based) write-class call on simulated files from now
-void disk_arm_fault(FaultKind kind, int nth);
+void disk_arm_fault(FaultKind kind, int nth, bool sticky = false);   // sticky: once it has fired every later write-class call fails too (EIO / ENOSPC)
 bool disk_disarm_fault();                              // returns whether it fired
 void disk_set_perturb(uint64_t seed, int per_mille);   // transparent short/EINTR perturbation
 // byte store helpers (through raw syscalls; not logged)
